@@ -110,6 +110,7 @@ def sibling_counts(ctx, rule="C16.sibling"):
 
 
 def rules(ctx):
+    layout(ctx)
     sibling_counts(ctx)
     param_flow(ctx)
     A.alias_mutation(ctx, "C16.alias", ST, ("BaseGaussianState", "BaseBosonicState", "BaseFockState"))
@@ -124,3 +125,125 @@ def rules(ctx):
             o.key = o.key.replace("C08.state-index", "C16.labels")
     ctx.floors.pop("C08.state-index", None)
     ctx.floor("C16.labels", 5)
+
+
+# ------------------------------------------------------------------------------------------------
+def layout(ctx, rule="C16.layout"):
+    """Fock representation: the einsum subscripts these functions BUILD are folded for every register size n <= 4 and
+    every mode subset / order, and interpreted on axis labels."""
+    import itertools
+    from ..layout import Machine, NotModelled, Obj, Raised, Tensor, Violation, canonical, TRUNC
+    from ..loader import AnalysisError
+    ctx.explain(f"{rule}: abstract interpretation (axis labels K m / B m, index strings folded by the analyser) of "
+                "BaseFockState.dm / reduced_dm / trace / all_fock_probs and FockBackend.state for every n <= 4, pure and "
+                "mixed data, every subset and order of requested modes: traces pair the ket and bra axis of one mode, the "
+                "axes kept are exactly those of the requested modes in the requested order (or the call raises), and the "
+                "label attached to position j names the mode whose axes sit at position j.")
+    fs = ctx.tree.cls(ST, "BaseFockState")
+    fb = ctx.tree.cls("backends/fockbackend/backend.py", "FockBackend")
+    circ = ctx.tree.cls("backends/fockbackend/circuit.py", "Circuit")
+    na = 0
+
+    def state_obj(n, pure):
+        return Obj(__class__=fs, _modes=n, _pure=pure, _cutoff=TRUNC, _data=Tensor(canonical(n, pure)), _hbar=2)
+
+    def interleaved(modes):
+        return tuple(x for mm in modes for x in (("K", mm), ("B", mm)))
+
+    def run(label, role, site, line, fn, check, may_raise=False):
+        nonlocal na
+        m = Machine(ctx.tree, [])
+        m.contract = lambda *a: (_ for _ in ()).throw(NotModelled("numeric contraction"))
+        problems = []
+        try:
+            res = fn(m)
+            problems += [f"{w}: {d}" for w, ok, d in m.obligations if not ok]
+            v = check(res)
+            if v:
+                problems.append(v)
+        except Violation as e:
+            problems.append(str(e))
+        except Raised as e:
+            if not may_raise:
+                problems.append(f"raises {e.what}")
+        except NotModelled as e:
+            na += 1
+            ctx.na(rule, site, f"{label}: {e}")
+            return
+        ok = not problems
+        ctx.ob(rule, site, ok, "" if ok else f"{label}: {problems[0]}", role=role, line=line, detail=label)
+
+    N = 4
+    # ---- dm() and trace() and all_fock_probs()
+    f_dm = fs.lookup("dm")
+    for n in range(1, N + 1):
+        run(f"dm n={n} pure", "dm:pure", f_dm.site, f_dm.node.lineno,
+            lambda m, n=n: m.call(f_dm, [], {}, state_obj(n, True)),
+            lambda r, n=n: "" if isinstance(r, Tensor) and r.labels == canonical(n, False) else f"dm() layout {r}")
+        f_tr = fs.lookup("trace")
+        run(f"trace n={n} mixed", "trace:mixed", f_tr.site, f_tr.node.lineno,
+            lambda m, n=n: _drop_real(m.call(f_tr, [], {}, state_obj(n, False))),
+            lambda r: "" if isinstance(r, Tensor) and r.labels == () else f"trace leaves axes {r}")
+    # ---- reduced_dm
+    f_red = fs.lookup("reduced_dm")
+    for n in range(1, N + 1):
+        for pure in (True, False):
+            for k in range(1, n + 1):
+                for modes in itertools.permutations(range(n), k):
+                    asc = list(modes) == sorted(modes)
+                    run(f"reduced_dm n={n} pure={pure} modes={list(modes)}",
+                        f"reduced_dm:{'pure' if pure else 'mixed'}:{'asc' if asc else 'desc'}:k{k}",
+                        f_red.site, f_red.node.lineno,
+                        lambda m, n=n, pure=pure, modes=modes: m.call(f_red, [list(modes)], {}, state_obj(n, pure)),
+                        lambda r, modes=modes: "" if isinstance(r, Tensor) and r.labels == interleaved(modes)
+                        else f"returns axes {r} for the request {list(modes)} (a different mode order than asked for)",
+                        may_raise=not asc)
+    # ---- FockBackend.state
+    f_st = fb.lookup("state")
+    for n in range(1, N + 1):
+        for pure in (True, False):
+            for deleted in ([], [0]) if n < N else ([],):
+                # the circuit holds n modes; external indices skip the deleted ones
+                ext = [i for i in range(n + len(deleted)) if i not in deleted]
+                mp = []
+                c = 0
+                for i in range(n + len(deleted)):
+                    if i in deleted:
+                        mp.append(None)
+                    else:
+                        mp.append(c)
+                        c += 1
+                subsets = [None] + [list(p) for k in range(1, min(n, 3) + 1) for p in itertools.permutations(range(n), k)]
+                for modes in subsets:
+                    def fn(m, n=n, pure=pure, modes=modes, mp=mp):
+                        cobj = Obj(__class__=circ, _state=Tensor(canonical(n, pure)), _pure=pure, _trunc=TRUNC, _num_modes=n)
+                        b = Obj(__class__=fb, circuit=cobj, _modemap=Obj(_map=list(mp)))
+                        return m.call(f_st, [], {"modes": modes}, b)
+
+                    def check(r, n=n, pure=pure, modes=modes, ext=ext):
+                        if not isinstance(r, Obj) or "__args__" not in r.attrs:
+                            return "no state object constructed"
+                        a = r.attrs["__args__"]
+                        data, nm, p_flag, names = a[0], a[1], a[2], a[4] if len(a) > 4 else r.attrs["__kwargs__"].get("mode_names")
+                        want_modes = list(range(n)) if modes is None else list(modes)
+                        if nm != len(want_modes):
+                            return f"num_modes {nm} for {len(want_modes)} requested modes"
+                        exp = tuple(("K", mm) for mm in want_modes) if p_flag else interleaved(want_modes)
+                        if not isinstance(data, Tensor) or data.labels != exp:
+                            return f"data axes {data} with pure={p_flag}, expected {Tensor(exp)}"
+                        wn = ["q[{}]".format(ext[mm]) for mm in want_modes]
+                        if list(names) != wn:
+                            return f"labels {list(names)} but the data holds modes {wn}"
+                        return ""
+                    lab = f"state n={n} pure={pure} deleted={deleted} modes={modes}"
+                    cyc = modes is not None and len(modes) >= 3 and list(modes) != sorted(modes)
+                    run(lab, f"state:{'pure' if pure else 'mixed'}:{'all' if modes is None else 'k%d' % len(modes)}:"
+                             f"{'asc' if modes is None or list(modes) == sorted(modes) else 'desc'}{':del' if deleted else ''}",
+                        f_st.site, f_st.node.lineno, fn, check)
+    if na:
+        raise AnalysisError(f"{rule}: {na} case(s) not interpretable: {ctx.not_analysed[-1]['why']}")
+    ctx.floor(rule, 300)
+
+
+def _drop_real(v):
+    return v
